@@ -30,4 +30,9 @@ pub trait Control: Send {
     fn pacing_rate(&self) -> Option<usize>;
 
     fn remove_from_bytes_in_flight(&mut self, packets: &mut dyn Iterator<Item = &SentPacket>);
+
+    /// Verification hook (read-only): `(congestion_window, ssthresh, bytes_in_flight,
+    /// congestion_recovery_start_time, ecn_ce_counters, max_datagram_size)`.
+    #[cfg(genmeta_gm_quic_verif)]
+    fn verif_state(&self) -> (usize, usize, usize, Option<Instant>, [u64; 3], usize);
 }
